@@ -20,12 +20,15 @@ use crate::compiler::{BasicCompileContext, CompileContextWrapper};
 use crate::util::Number;
 
 fn apply_fn(loc: Srcloc, name: String, expr: Rc<BodyForm>) -> Rc<BodyForm> {
+    // First and rest go by opcode: a user function may be called f or r.
+    let head = match name.as_str() {
+        "f" => SExp::Atom(loc.clone(), vec![5]),
+        "r" => SExp::Atom(loc.clone(), vec![6]),
+        _ => SExp::atom_from_string(loc.clone(), &name),
+    };
     Rc::new(BodyForm::Call(
         loc.clone(),
-        vec![
-            Rc::new(BodyForm::Value(SExp::atom_from_string(loc, &name))),
-            expr,
-        ],
+        vec![Rc::new(BodyForm::Value(head)), expr],
         // Ok: applying a primitive or builtin requires no tail.
         None,
     ))
